@@ -10,6 +10,7 @@
 import AgeModel.Extracted.RandUse
 import Proofs.GoTieNonce
 import Proofs.GoTieEncrypt
+import Proofs.GoTieGenerate
 namespace AgeModel
 namespace Tie.C06
 
@@ -89,6 +90,18 @@ theorem encrypt_tie (P : Prims) {S : AgeModel.Stream.DstSpec} {ρ δ ω : Type} 
           res.1 = E.mkW k res.2.2.1 ∧ res.2.1 = none ∧ E.absD res.2.2.1 = d2 ∧ res.2.2.2 = t' ∧ w = AgeModel.Stream.Writer.new d2
       | (.error e, d2) => GoTie.encErrRel E.eRand e res.2.1 ∧ E.absD res.2.2.1 = d2 :=
   GoTie.encrypt_tie P E d rs tape
+
+/-- `age.GenerateX25519Identity`, translated with crypto/rand as a tape: the secret key is exactly
+    the next 32 bytes of the random source and nothing else is drawn -/
+theorem generate_tie (eRand : Go.Err) (X : Bytes → Bytes → Go.M (Bytes × Option Go.Err)) (bp tape : Bytes) :
+    Extracted.age_GenerateX25519Identity (GoTie.tapeRead eRand) X bp tape =
+      match draw 32 tape with
+      | none => .ok (⟨[], []⟩, some ⟨"age.GenerateX25519Identity", 0, []⟩, tape)
+      | some (sk, t) =>
+        match X sk bp with
+        | .ok r => .ok (⟨sk, r.1⟩, none, t)
+        | .error e => .error e :=
+  GoTie.generate_tie eRand X bp tape
 
 end Tie.C06
 end AgeModel
